@@ -23,6 +23,10 @@ VOCAB = [
     (["link=http://a:b/c"], ["link"], _rec(link="http://a:b/c")),
     (["link=https://x.y/?q=1#f"], ["link"], _rec(link="https://x.y/?q=1#f")),
     (["strike", "s"], ["strike", "s"], _rec({"strike": True})),
+    # links written as part of a style definition (space form), with upper-case characters in the URL
+    (["link https://Example.org/Docs/ReadMe"], ["link https://Example.org/Docs/ReadMe"], _rec(link="https://Example.org/Docs/ReadMe")),
+    (["bold link HTTPS://X.Y/Zed"], ["bold link HTTPS://X.Y/Zed"], _rec({"bold": True}, link="HTTPS://X.Y/Zed")),
+    (["link=http://A:b/C"], ["link"], _rec(link="http://A:b/C")),
     # tags whose name is NOT a style (unknown words, style definitions cut short): still tags - removed from the
     # text, closed by name - but they style nothing
     (["not"], ["not"], _rec()),
